@@ -39,6 +39,8 @@ pub struct GenCfg {
     pub force_globals: bool,
     /// sprinkle calls of the harness-provided `(tick)` function (C11)
     pub tick: bool,
+    /// declare this many globals `n0`, `n1`, .. that the caller binds to existing graph nodes (C09)
+    pub gnode_globals: usize,
 }
 
 impl GenCfg {
@@ -61,6 +63,7 @@ impl GenCfg {
             pool_subset: vec![],
             force_globals: false,
             tick: false,
+            gnode_globals: 0,
         }
     }
     pub fn fragment() -> GenCfg {
@@ -94,6 +97,8 @@ struct Local {
     binder: bool,
     /// the node behind a GNode variable was created in this very frame
     fresh_node: bool,
+    /// node kinds of a Syn-typed variable ("*" = anything)
+    kinds: &'static str,
 }
 
 #[derive(Clone, Debug)]
@@ -122,6 +127,10 @@ struct ScopedInfo {
     mutable: bool,
     coverage: Coverage,
     def_stanza: usize,
+    /// for Syn-typed variables: kinds of the node they hold
+    syn_kinds: &'static str,
+    /// further kinds on which later stanzas define this (inherited) name
+    extra_kinds: Vec<&'static str>,
 }
 
 #[derive(Clone, Debug)]
@@ -180,6 +189,10 @@ struct G<'t, 'b> {
     current_entry_covers: Option<(String, &'static str)>,
     loop_depth: usize,
     extra_items: Vec<Item>,
+    /// scoped names read so far
+    read_names: BTreeSet<String>,
+    /// inherited names defined in the current stanza
+    defined_here: BTreeSet<String>,
 }
 
 impl<'t, 'b> G<'t, 'b> {
@@ -235,7 +248,7 @@ impl<'t, 'b> G<'t, 'b> {
     // ---------------------------------------------------------------------------------------
     // expressions
 
-    fn syn_sources(&self, need_local: bool) -> Vec<(Expr, &'static str)> {
+    fn base_scopes(&self) -> Vec<(Expr, &'static str)> {
         // expressions that evaluate to one syntax node, with the kinds they can have
         let mut out = vec![];
         if !self.in_shorthand_body {
@@ -246,8 +259,32 @@ impl<'t, 'b> G<'t, 'b> {
             }
         }
         for l in self.visible() {
+            if l.ty == Ty::Syn {
+                out.push((Expr::Var { id: 0, name: l.name.clone() }, l.kinds));
+            }
+        }
+        out
+    }
+
+    fn syn_sources(&self, need_local: bool) -> Vec<(Expr, &'static str)> {
+        let mut out = vec![];
+        if !self.in_shorthand_body {
+            for c in &self.caps {
+                if c.quant == Quant::One {
+                    out.push((Expr::Capture { id: 0, name: c.name.clone() }, c.kinds));
+                }
+            }
+        }
+        for l in self.visible() {
             if l.ty == Ty::Syn && (l.local || !need_local) {
-                out.push((Expr::Var { id: 0, name: l.name.clone() }, "*"));
+                out.push((Expr::Var { id: 0, name: l.name.clone() }, l.kinds));
+            }
+        }
+        if !need_local {
+            // syntax nodes stored in scoped variables (`let @a.ref = @b` ... `@a.ref`)
+            let base = self.base_scopes();
+            for (e, info) in self.scoped_via(&base, &|s| s.ty == Ty::Syn) {
+                out.push((e, info.syn_kinds));
             }
         }
         out
@@ -265,6 +302,7 @@ impl<'t, 'b> G<'t, 'b> {
         match e {
             Expr::Capture { name, .. } => Expr::Capture { id: self.id(), name },
             Expr::Var { name, .. } => Expr::Var { id: self.id(), name },
+            Expr::Scoped { .. } => self.finish_scoped(e),
             other => other,
         }
     }
@@ -286,52 +324,51 @@ impl<'t, 'b> G<'t, 'b> {
         kinds.split('|').all(|k| k == of)
     }
 
-    /// Scoped variables of type `ty` readable here without risk.
-    fn scoped_reads(&mut self, ty: &Ty) -> Vec<Expr> {
+    /// Reads of scoped variables accepted by `pred`, through the given scope expressions, that
+    /// are defined by construction when they execute.
+    fn scoped_via(&self, scopes: &[(Expr, &'static str)], pred: &dyn Fn(&ScopedInfo) -> bool) -> Vec<(Expr, ScopedInfo)> {
         let mut out = vec![];
         if self.in_shorthand_body {
             return out;
         }
-        let infos: Vec<ScopedInfo> = self.scoped.iter().filter(|s| &s.ty == ty).cloned().collect();
-        for s in infos {
-            // fragment: an inherited name is not read in a stanza that defines it
-            match &s.coverage {
-                Coverage::Kind(k) => {
-                    if s.def_stanza >= self.stanza_idx {
-                        continue;
-                    }
-                    for c in self.caps.clone() {
-                        if c.quant == Quant::One && Self::kinds_subset(c.kinds, k) {
-                            out.push(Expr::Scoped { id: 0, scope: Box::new(Expr::Capture { id: 0, name: c.name.clone() }), name: s.name.clone() });
-                        }
-                    }
-                }
-                Coverage::Exact { stanza, cap } => {
-                    if *stanza == self.stanza_idx {
-                        out.push(Expr::Scoped { id: 0, scope: Box::new(Expr::Capture { id: 0, name: cap.clone() }), name: s.name.clone() });
-                    }
-                }
-                Coverage::ModuleInherited => {
-                    if s.def_stanza >= self.stanza_idx {
-                        continue;
-                    }
-                    for c in self.caps.clone() {
-                        if c.quant == Quant::One {
-                            out.push(Expr::Scoped { id: 0, scope: Box::new(Expr::Capture { id: 0, name: c.name.clone() }), name: s.name.clone() });
-                        }
-                    }
+        for s in self.scoped.iter().filter(|s| pred(s)) {
+            for (scope, kinds) in scopes {
+                let ok = match &s.coverage {
+                    Coverage::Kind(k) => s.def_stanza < self.stanza_idx && Self::kinds_subset(kinds, k),
+                    Coverage::Exact { stanza, cap } => *stanza == self.stanza_idx && matches!(scope, Expr::Capture { name, .. } if name == cap),
+                    // an inherited name is not read in a stanza that defines it
+                    Coverage::ModuleInherited => s.def_stanza < self.stanza_idx && !self.defined_here.contains(&s.name),
+                };
+                if ok {
+                    out.push((Expr::Scoped { id: 0, scope: Box::new(scope.clone()), name: s.name.clone() }, s.clone()));
                 }
             }
         }
         out
     }
 
+    /// Scoped variables of type `ty` readable here without risk: through captures and Syn locals,
+    /// and through syntax nodes stored in other scoped variables (nested scopes).
+    fn scoped_reads(&self, ty: &Ty) -> Vec<Expr> {
+        let base = self.base_scopes();
+        let mut out: Vec<Expr> = self.scoped_via(&base, &|s| &s.ty == ty).into_iter().map(|x| x.0).collect();
+        let links: Vec<(Expr, &'static str)> = self.scoped_via(&base, &|s| s.ty == Ty::Syn && s.syn_kinds != "*").into_iter().map(|(e, i)| (e, i.syn_kinds)).collect();
+        out.extend(self.scoped_via(&links, &|s| &s.ty == ty).into_iter().map(|x| x.0));
+        out
+    }
+
     fn finish_scoped(&mut self, e: Expr) -> Expr {
         match e {
             Expr::Scoped { scope, name, .. } => {
-                self.mark_cap(&scope);
-                let scope = self.with_ids(*scope);
+                if matches!(*scope, Expr::Scoped { .. }) {
+                    self.features.insert("nested-scope-read");
+                }
+                if matches!(*scope, Expr::Var { .. }) {
+                    self.features.insert("scoped-read-through-local");
+                }
+                let scope = self.reid(*scope);
                 self.features.insert("scoped-read");
+                self.read_names.insert(name.clone());
                 Expr::Scoped { id: self.id(), scope: Box::new(scope), name }
             }
             other => other,
@@ -616,46 +653,46 @@ impl<'t, 'b> G<'t, 'b> {
     /// A list-valued, statically local expression with list quantifier (iterable by for /
     /// comprehensions): list captures, list literals, list comprehensions, `*`/`+` globals,
     /// immutable locals bound to those.  Returns the expression and its element type.
-    fn iterable(&mut self, depth: usize) -> (Expr, Ty) {
-        let mut cands: Vec<(Expr, Ty)> = vec![];
+    fn iterable(&mut self, depth: usize) -> (Expr, Ty, &'static str) {
+        let mut cands: Vec<(Expr, Ty, &'static str)> = vec![];
         if !self.in_shorthand_body {
             for c in &self.caps {
                 if c.quant.is_list() {
-                    cands.push((Expr::Capture { id: 0, name: c.name.clone() }, Ty::Syn));
+                    cands.push((Expr::Capture { id: 0, name: c.name.clone() }, Ty::Syn, c.kinds));
                 }
             }
         }
         for l in self.visible() {
             if let Ty::List(inner) = &l.ty {
                 if l.local && !l.mutable && l.quant.is_list() && !l.binder {
-                    cands.push((Expr::Var { id: 0, name: l.name.clone() }, (**inner).clone()));
+                    cands.push((Expr::Var { id: 0, name: l.name.clone() }, (**inner).clone(), "*"));
                 }
             }
         }
         for g in &self.globals {
             if g.quant.is_list() {
                 if let Ty::List(inner) = &g.ty {
-                    cands.push((Expr::Var { id: 0, name: g.name.clone() }, (**inner).clone()));
+                    cands.push((Expr::Var { id: 0, name: g.name.clone() }, (**inner).clone(), "*"));
                 }
             }
         }
         if !cands.is_empty() && self.t.chance(3, 4) {
-            let (e, ty) = cands[self.t.choose(cands.len())].clone();
+            let (e, ty, k) = cands[self.t.choose(cands.len())].clone();
             self.mark_cap(&e);
-            return (self.with_ids(e), ty);
+            return (self.with_ids(e), ty, k);
         }
         let ety = [Ty::Int, Ty::Str, Ty::Bool][self.t.choose(3)].clone();
         let n = self.t.weighted(&[1, 4, 4, 2]);
         let items = (0..n).map(|_| self.expr(&ety, true, depth + 2)).collect();
-        (Expr::List(items), ety)
+        (Expr::List(items), ety, "*")
     }
 
     fn comprehension(&mut self, elem_ty: &Ty, list: bool, need_local: bool, depth: usize) -> Expr {
-        let (src, src_elem) = self.iterable(depth);
+        let (src, src_elem, src_kinds) = self.iterable(depth);
         let var = self.fresh_name("e");
         let id = self.id();
         let var_id = self.id();
-        self.frames.push(vec![Local { name: var.clone(), ty: src_elem.clone(), mutable: false, local: true, quant: Quant::Star, binder: true, fresh_node: false }]);
+        self.frames.push(vec![Local { name: var.clone(), ty: src_elem.clone(), mutable: false, local: true, quant: Quant::Star, binder: true, fresh_node: false, kinds: src_kinds }]);
         self.attr_used.push(BTreeMap::new());
         self.edges_here.push(vec![]);
         let elem = if &src_elem == elem_ty && self.t.chance(1, 2) {
@@ -756,7 +793,7 @@ impl<'t, 'b> G<'t, 'b> {
             Some(v) => self.static_info(v),
             None => (true, Quant::One),
         };
-        self.frames.last_mut().unwrap().push(Local { name: name.to_string(), ty, mutable, local: local && !mutable, quant, binder: false, fresh_node });
+        self.frames.last_mut().unwrap().push(Local { name: name.to_string(), ty, mutable, local: local && !mutable, quant, binder: false, fresh_node, kinds: "*" });
     }
 
     fn block(&mut self, depth: usize) -> Vec<Stmt> {
@@ -785,6 +822,11 @@ impl<'t, 'b> G<'t, 'b> {
             if l.ty == Ty::GNode {
                 let fresh = l.fresh_node && innermost.contains(&l.name);
                 out.push((Expr::Var { id: 0, name: l.name.clone() }, l.name.clone(), fresh));
+            }
+        }
+        for g in &self.globals {
+            if g.ty == Ty::GNode {
+                out.push((Expr::Var { id: 0, name: g.name.clone() }, g.name.clone(), false));
             }
         }
         for e in self.scoped_reads(&Ty::GNode) {
@@ -1019,12 +1061,12 @@ impl<'t, 'b> G<'t, 'b> {
                 Some(Stmt::If { id, arms })
             }
             10 => {
-                let (value, elem) = self.iterable(depth);
+                let (value, elem, elem_kinds) = self.iterable(depth);
                 let id = self.id();
                 let var_id = self.id();
                 let var = self.fresh_name("it");
                 self.push_frame();
-                self.frames.last_mut().unwrap().push(Local { name: var.clone(), ty: elem, mutable: false, local: true, quant: Quant::Star, binder: true, fresh_node: false });
+                self.frames.last_mut().unwrap().push(Local { name: var.clone(), ty: elem, mutable: false, local: true, quant: Quant::Star, binder: true, fresh_node: false, kinds: elem_kinds });
                 self.loop_depth += 1;
                 let body = self.block(depth + 1);
                 self.loop_depth -= 1;
@@ -1118,8 +1160,31 @@ impl<'t, 'b> G<'t, 'b> {
         }
         let cap = ones[self.t.choose(ones.len())].clone();
         let entry_covers = self.current_covers();
+        let covers_here = top && entry_covers.as_ref().map(|(c, _)| c == &cap.name).unwrap_or(false);
+        // an inherited name defined on the module can get further definitions on other kinds of
+        // nodes (several defining ancestors), as long as nobody has read it yet in the fragment
+        if covers_here && !node_stmt {
+            let kind = entry_covers.as_ref().unwrap().1;
+            let cands: Vec<usize> = (0..self.scoped.len())
+                .filter(|i| {
+                    let si = &self.scoped[*i];
+                    si.coverage == Coverage::ModuleInherited && kind != "module" && !si.extra_kinds.contains(&kind) && si.def_stanza < self.stanza_idx && !si.mutable && (!self.cfg.fragment || !self.read_names.contains(&si.name))
+                })
+                .collect();
+            if !cands.is_empty() && self.t.chance(1, 2) {
+                let i = cands[self.t.choose(cands.len())];
+                let (name, ty) = (self.scoped[i].name.clone(), self.scoped[i].ty.clone());
+                self.scoped[i].extra_kinds.push(kind);
+                self.defined_here.insert(name.clone());
+                let cap_expr = Expr::Capture { id: self.id(), name: cap.name.clone() };
+                let value = self.scoped_value(&ty, &name, &cap, depth);
+                self.features.insert("inherited-name-defined-on-several-kinds");
+                self.features.insert("scoped-def");
+                return Some(Stmt::Let { id: self.id(), var: VarRef::Scoped { id: self.id(), scope: cap_expr, name }, value });
+            }
+        }
         // coverage this definition gives
-        let coverage = if top && entry_covers.as_ref().map(|(c, _)| c == &cap.name).unwrap_or(false) {
+        let coverage = if covers_here {
             let kind = entry_covers.unwrap().1;
             if kind == "module" && self.t.chance(1, 2) {
                 Coverage::ModuleInherited
@@ -1132,7 +1197,7 @@ impl<'t, 'b> G<'t, 'b> {
             // conditional definition: not reliably readable
             Coverage::Exact { stanza: usize::MAX, cap: cap.name.clone() }
         };
-        // name: fresh, or (risky / scoped-heavy) an existing one
+        // name: fresh, or (risky) an existing one
         let reuse = !self.scoped.is_empty() && self.risky();
         let reuse_name = if reuse {
             let i = self.t.choose(self.scoped.len());
@@ -1153,20 +1218,35 @@ impl<'t, 'b> G<'t, 'b> {
             let base = ["v", "ref", "val", "something"][self.t.choose(4)];
             self.fresh_name(base)
         };
-        if self.cfg.fragment && coverage == Coverage::ModuleInherited {
-            // nothing to do: readers come in later stanzas only
-        }
-        let ty = if node_stmt { Ty::GNode } else { self.value_ty() };
+        // a link to another syntax node of this match (`let @a.ref = @b`)
+        let others: Vec<CapInfo> = ones.iter().filter(|c| c.name != cap.name).cloned().collect();
+        let link = !node_stmt && !others.is_empty() && self.t.chance(if self.cfg.scoped_heavy { 1 } else { 0 }, 4);
+        let ty = if node_stmt {
+            Ty::GNode
+        } else if link {
+            Ty::Syn
+        } else if self.cfg.scoped_heavy && self.t.chance(1, 2) {
+            Ty::Str
+        } else {
+            self.value_ty()
+        };
         let mutable = !node_stmt && !self.cfg.fragment && self.t.chance(1, 4);
         let cap_expr = Expr::Capture { id: self.id(), name: cap.name.clone() };
-        self.mark_cap(&cap_expr);
         let id = self.id();
         let vid = self.id();
+        let mut syn_kinds = "*";
         let stmt = if node_stmt {
             self.features.insert("node");
             Stmt::Node { id, var: VarRef::Scoped { id: vid, scope: cap_expr, name: name.clone() } }
         } else {
-            let value = self.expr(&ty, false, depth);
+            let value = if link {
+                let other = others[self.t.choose(others.len())].clone();
+                syn_kinds = other.kinds;
+                self.features.insert("scoped-link");
+                Expr::Capture { id: self.id(), name: other.name }
+            } else {
+                self.scoped_value(&ty, &name, &cap, depth)
+            };
             if mutable {
                 Stmt::Var { id, var: VarRef::Scoped { id: vid, scope: cap_expr, name: name.clone() }, value }
             } else {
@@ -1177,10 +1257,31 @@ impl<'t, 'b> G<'t, 'b> {
             self.inherited.insert(name.clone());
         }
         if !reuse {
-            self.scoped.push(ScopedInfo { name, ty, mutable, coverage, def_stanza: self.stanza_idx });
+            self.scoped.push(ScopedInfo { name, ty, mutable, coverage, def_stanza: self.stanza_idx, syn_kinds, extra_kinds: vec![] });
         }
         self.features.insert("scoped-def");
         Some(stmt)
+    }
+
+    /// The value stored in a scoped variable: for strings mostly one that identifies the
+    /// definition site and the node (kind, row, column), so that reads from a wrong node show.
+    fn scoped_value(&mut self, ty: &Ty, name: &str, cap: &CapInfo, depth: usize) -> Expr {
+        if *ty == Ty::Str && self.t.chance(2, 3) {
+            let c = |g: &mut Self| Expr::Capture { id: g.id(), name: cap.name.clone() };
+            let a = c(self);
+            let b = c(self);
+            let d = c(self);
+            return Expr::Call {
+                func: "format".into(),
+                args: vec![
+                    Expr::Str(format!("{}@{}:{{}}:{{}}:{{}}", name, self.stanza_idx)),
+                    Expr::Call { func: "node-type".into(), args: vec![a] },
+                    Expr::Call { func: "start-row".into(), args: vec![b] },
+                    Expr::Call { func: "start-column".into(), args: vec![d] },
+                ],
+            };
+        }
+        self.expr(ty, false, depth)
     }
 
     fn current_covers(&self) -> Option<(String, &'static str)> {
@@ -1369,6 +1470,7 @@ impl<'t, 'b> G<'t, 'b> {
             })
             .collect();
         self.current_entry_covers = entry.covers.map(|k| (names[0].1.clone(), k));
+        self.defined_here.clear();
         self.frames = vec![vec![]];
         self.attr_used = vec![BTreeMap::new()];
         self.edges_here = vec![vec![]];
@@ -1408,7 +1510,7 @@ impl<'t, 'b> G<'t, 'b> {
         let id = self.id();
         self.in_shorthand_body = true;
         let saved_caps = std::mem::take(&mut self.caps);
-        self.frames = vec![vec![Local { name: var.clone(), ty: arg.clone(), mutable: false, local: false, quant: Quant::One, binder: true, fresh_node: false }]];
+        self.frames = vec![vec![Local { name: var.clone(), ty: arg.clone(), mutable: false, local: false, quant: Quant::One, binder: true, fresh_node: false, kinds: "*" }]];
         self.attr_used = vec![BTreeMap::new()];
         self.edges_here = vec![vec![]];
         let n = 1 + self.t.choose(3);
@@ -1465,6 +1567,8 @@ pub fn generate(t: &mut Tape, cfg: &GenCfg) -> Generated {
         current_entry_covers: None,
         loop_depth: 0,
         extra_items: vec![],
+        read_names: BTreeSet::new(),
+        defined_here: BTreeSet::new(),
     };
     let mut head: Vec<Item> = vec![];
     let mut supplied = BTreeMap::new();
@@ -1499,6 +1603,12 @@ pub fn generate(t: &mut Tape, cfg: &GenCfg) -> Generated {
             head.push(Item::Global { id, name, quant, default });
             g.features.insert("global");
         }
+    }
+    for i in 0..cfg.gnode_globals {
+        let name = format!("n{}", i);
+        g.globals.push(GlobalInfo { name: name.clone(), quant: Quant::One, ty: Ty::GNode });
+        let id = g.id();
+        head.push(Item::Global { id, name, quant: Quant::One, default: None });
     }
     if cfg.shorthands {
         let n = g.t.weighted(&[4, 3, 2]);
